@@ -39,7 +39,13 @@ def eval_body(stmts, den, sens, extra):
             return sympy.nsimplify(n.get("v"), rational=True)
         if n.k == "BinaryOperator" and n.op in ("+", "-", "*", "/"):
             a, b = ex(n.c[0]), ex(n.c[1])
-            return {"+": a + b, "-": a - b, "*": a * b, "/": a / b}[n.op]
+            if n.op == "/":
+                from engine.algebra import int_aware_div
+
+                return int_aware_div(n, a, b)  # 1 / 10 is 0 in C++
+            return {"+": a + b, "-": a - b, "*": a * b}[n.op]
+        if n.k in ("CXXFunctionalCastExpr", "CXXConstructExpr", "CXXTemporaryObjectExpr") and len(n.c) == 1:
+            return ex(n.c[0])  # elemT(10): value-preserving conversion of a constant
         if n.k == "CallExpr" and n.callee in ("std::max", "std::min") and len(n.c) == 2:
             a, b = ex(n.c[0]), ex(n.c[1])
             return sympy.Max(a, b) if n.callee == "std::max" else sympy.Min(a, b)
